@@ -100,6 +100,7 @@ static void c16_case(uint64_t idx, rng_t *r) {
         g_ctx = "varintFORReadMetadata";
         varintFORReadMetadata(enc, &rm);
         M16(rm.count == n && rm.minValue == mn && (int)rm.offsetWidth == ref_bytes_needed(mx - mn) && rm.encodedSize == ret, "FOR.ReadMetadata", "n=%zu count %zu min %" PRIu64 " width %d size %zu/%zu", n, rm.count, rm.minValue, (int)rm.offsetWidth, rm.encodedSize, ret);
+        M16((int)varintFORComputeWidth(mx - mn) == ref_bytes_needed(mx - mn), "FOR.ComputeWidth", "range %" PRIu64, mx - mn);
         M16(varintFORGetCount(enc) == n, "FOR.GetCount", "n=%zu got %zu", n, varintFORGetCount(enc));
         M16(varintFORGetMinValue(enc) == mn, "FOR.GetMinValue", "want %" PRIu64, mn);
         M16((int)varintFORGetOffsetWidth(enc) == ref_bytes_needed(mx - mn), "FOR.GetOffsetWidth", "got %d", (int)varintFORGetOffsetWidth(enc));
@@ -195,6 +196,7 @@ static void c16_case(uint64_t idx, rng_t *r) {
             size_t last = inblocks % 128 ? inblocks % 128 : 128;
             M16(m->lastBlockSize == last, "BP128.meta.lastBlockSize", "n=%zu values in final block %zu meta %zu", n, last, m->lastBlockSize);
         }
+        M16(varintBP128BitsNeeded64(mx) == ref_bits(mx) && varintBP128BitsNeeded32((uint32_t)mx) == ref_bits((uint32_t)mx), "BP128.BitsNeeded", "max %" PRIu64, mx);
         if (!strcmp(c->name, "bp128.64")) {
             g_ctx = "varintBP128GetCount";
             M16(varintBP128GetCount(enc, ret) == n, "BP128.GetCount", "n=%zu accessor %zu", n, varintBP128GetCount(enc, ret));
@@ -444,12 +446,13 @@ static void c06_roundtrip(const char *label, int forced, const uint64_t *a, size
     }
     g_sub[0] = 0;
     free(out);
-    free(enc);
+    placed_free(enc);
     free(dst);
 }
 
 static void c06_case(uint64_t idx, rng_t *r) {
     size_t n;
+    g_enc_off = (idx & 1) ? (size_t)((idx >> 1) & 15) : 0;
     const char *kindname = "?";
     uint64_t *tmp;
     if (g_param[2] && idx == 0 && g_shard < 2) {
